@@ -223,6 +223,15 @@ def _execute(case, edit):
         if nl and nr and nmatch == 0: f.append("no-match")
         if nr and all(k is None for k in rkeys): f.append("right-keys-all-missing")
         return "+".join(f) or "plain"
+    gsel = len(repr(lspec)) % 7
+    if gsel in (0, 1) and not self_join:
+        # an operand that was grouped (and summarised) earlier stays marked by group_by: a join does not care
+        try:
+            if gsel == 0: L.group_by(by1[0]); L.aggregate(n=di.count())
+            else: R.group_by(by2[0]); R.aggregate(n=di.count())
+            res.cls("grouped-operand")
+        except Exception:
+            pass
     try:
         out = getattr(L, join)(R, *by)
     except Exception as e:
